@@ -45,7 +45,7 @@ PAYLOAD_N = 3
 
 def units(tier: str) -> List[Any]:
     n = 4 if tier == "quick" else 5
-    us: List[Any] = [("tree", t) for t in F.trees_upto(n)]
+    us: List[Any] = [("tree", t) for t in F.trees_upto(n)] + [("tree", t) for t in F.par_skeletons(tier)]
     us += [("follow", spec) for spec in follow.specs(3 if tier == "quick" else 4)]
     us += [("feature", name) for name in features.names()]
     return us
@@ -211,7 +211,7 @@ def explore(cfg, nodes, events, *, label, replay, shape="", guard_impls=None, ex
             # C05 also compares what happens to events sent after completion
             return [n for n, e in list(events.items())[:1]]
         conf = set(o[0])
-        return [n for n, e in events.items() if e["src"] in conf and e["kind"] in ("T", "R", "N")]
+        return [n for n, e in events.items() if e["src"] in conf and e["kind"] in ("T", "R", "N", "S")]
 
     # start-up comparison
     try:
@@ -236,7 +236,7 @@ def explore(cfg, nodes, events, *, label, replay, shape="", guard_impls=None, ex
 def run_unit(unit):
     kind, payload = unit
     if kind == "tree":
-        cfg, nodes, events = F.universal_config(payload)
+        cfg, nodes, events = F.universal_config(payload, shared=True)
         return explore(cfg, nodes, events, label=F.tree_str(payload), replay=dict(kind="tree", tree=payload), shape="tree")
     if kind == "follow":
         cfg, nodes, events = follow.build(payload)
